@@ -114,6 +114,11 @@ static void dump_stats()
 	if (!f) return;
 	for (std::map<std::string, unsigned long long>::iterator it = g_cnt.begin(); it != g_cnt.end(); ++it)
 		fprintf(f, "%s %llu\n", it->first.c_str(), it->second);
+	{
+		struct timespec ts;
+		clock_gettime(CLOCK_PROCESS_CPUTIME_ID, &ts);
+		fprintf(f, "cpu_ms_process %llu\n", (unsigned long long)(ts.tv_sec * 1e3 + ts.tv_nsec / 1e6));
+	}
 	fprintf(f, "nt_distinct %zu\n", g_nt.size());
 	fclose(f);
 	rename(tmp.c_str(), g_stats_path.c_str());
@@ -565,7 +570,7 @@ static size_t count_nonblank_lines(const char *s, size_t n)
 static inline double now_ms()
 {
 	struct timespec ts;
-	clock_gettime(CLOCK_MONOTONIC, &ts);
+	clock_gettime(CLOCK_PROCESS_CPUTIME_ID, &ts);   // CPU time: independent of the load of the machine
 	return ts.tv_sec * 1e3 + ts.tv_nsec / 1e6;
 }
 
